@@ -155,14 +155,21 @@ def _sched(shard):
         out["failures"].append(fw.fail(f"sched/{target}/{kn}/{tag}", f"{target} kernel {kn} (K={K}, starts {shard['starts']}, bound {shard['bound']}): {msg}", dict(shard)))
 
     try:
+        entry_is_kernel = True
         if target == "prange":
-            lk = S.LiftedKernel(getattr(core, kn), "prange")
+            # the parallel loop may sit in the public kernel itself or in a helper it calls
+            disp, args = S.capture_prange_call(getattr(core, kn), args)
+            entry_is_kernel = disp is getattr(core, kn)
+            lk = S.LiftedKernel(disp, "prange")
             nth = None
         else:
+            # run the host wrapper with the device API replaced by NumPy stand-ins and record the kernel launch:
+            # the explored threads get exactly the arguments and launch configuration the wrapper would use
             cc = importlib.import_module("speckit.core_cuda")
-            lk = S.LiftedKernel(getattr(cc, kn + "_cuda_kernel"), "cuda")
-            args = args + [np.full(K, np.nan) for _ in range(4)]
-            nth = K + 1
+            disp, cfg, args, outs_idx = S.capture_cuda_launch(getattr(cc, kn + "_cuda"), args)
+            lk = S.LiftedKernel(disp, "cuda")
+            lk.launch, lk.outputs = cfg, outs_idx
+            nth = cfg[0] * cfg[1]
         # iterative bounding: 0, 1, 2 preemptions completely, then the requested bound; stop at the first
         # schedule whose outcome differs (the counter-example with the fewest preemptions)
         r = None
@@ -178,7 +185,7 @@ def _sched(shard):
             done = r["bound_completed"]
             r = S.explore(lk, args, None, nthreads=nth, max_exec=MAX_EXEC, stop_on_diff=True)
             r["bound_completed"] = -1 if (not r["capped"] and r["outcomes"] == 1) else done  # -1 = unbounded completed
-    except (S.LiftError, SyntaxError, AttributeError, KeyError, TypeError, NameError, ValueError, IndexError) as e:
+    except (S.LiftError, SyntaxError, AttributeError, KeyError, TypeError, NameError, ValueError, IndexError, NotImplementedError, RuntimeError) as e:
         # an AST shape the lifter does not model: the schedule space of this kernel cannot be enumerated. That is a
         # limit of the harness, not a verdict on the code: nothing is reported for this kernel here (the native
         # conformance sweep over thread counts and chunk sizes still runs on it) and the evidence says so.
@@ -205,11 +212,15 @@ def _sched(shard):
             break
     # conformance of the lifted in-order execution with the compiled kernel
     if target == "prange":
-        got = np.array([float(v) for v in getattr(core, kn)(*args)])
-        ref = np.array([float(v) for v in r["reference"]])
-        scale = max(abs(ref[0]), abs(ref[1]), 1e-300)
-        if not np.all(np.abs(got - ref) <= 1e-12 * np.array([scale, scale, scale, scale, scale * scale])):
-            add("model-vs-compiled", f"lifted in-order execution {ref.tolist()} differs from the compiled kernel {got.tolist()}")
+        def flat(v):
+            if isinstance(v, (tuple, list)):
+                return np.concatenate([flat(u) for u in v]) if len(v) else np.zeros(0)
+            return np.atleast_1d(np.asarray(v, dtype=float)).ravel()
+        got = flat(disp(*[a.copy() if isinstance(a, np.ndarray) else a for a in args]))
+        ref = flat(r["reference"])
+        scale = max(float(np.max(np.abs(ref))) if ref.size else 0.0, 1e-300)
+        if got.shape != ref.shape or not np.all(np.abs(got - ref) <= 1e-11 * max(scale, scale * scale)):
+            add("model-vs-compiled", f"lifted in-order execution {ref.tolist()[:8]} differs from the compiled code {got.tolist()[:8]}")
         out["extra"]["traces_validated_against_impl"] = 1
     out["samples"].append({"kernel": kn, "target": target, "K": K, "bound": shard["bound"], "schedules": r["executions"], "hot": r["hot"],
                            "points": r["points"], "racy": r["n_racy"]})
